@@ -175,8 +175,9 @@ def render_expected(template: str, lines: List[str]) -> Optional[str]:
     return rest.replace("\1", "".join(body_n.replace("\0", ln) for ln in lines))
 
 
-def end_to_end(blocks: List[Block]):
-    md = [{"metadata_type": "add_job_script", "name": n, "script": list(s), "depends_on": list(d)} for n, s, d in blocks]
+def end_to_end(blocks: List[Block], omit_empty: bool = False):
+    """omit_empty: a block without dependencies is sent WITHOUT a depends_on key (the key is optional)."""
+    md = [{"metadata_type": "add_job_script", "name": n, "script": list(s), **({} if (omit_empty and not d) else {"depends_on": list(d)})} for n, s, d in blocks]
     a = impl.query_ast('ds.Select(lambda e: e.EventInfo("EventInfo").runNumber())', md)
     r = impl.translate("atlas", a)
     impl.reset_globals()
@@ -236,9 +237,16 @@ def check(tier: str, seed: int, t0: float, build: core.BuildStatus) -> int:
     n_e2e = 25 if tier == "quick" else 300
     template = (core.REPO / "func_adl_xAOD/template/atlas/r21/ATestRun_eljob.py").read_text()
     e2e_ok = 0
-    for _ in range(n_e2e):
-        blocks = gen_random(rng, 5)
-        r = end_to_end(blocks)
+    # directed: a block sent twice, dependencies on only one of the copies, next to blocks without a depends_on key - each in
+    # its own query and then a lone dependency-free block (what one query declares must not reach the next)
+    directed = [[("x", ["x=1"], []), ("j", ["j=1"], []), ("j", ["j=1"], ["x"])],
+                [("solo", ["s=1"], [])],
+                [("j", ["j=1"], ["x"]), ("x", ["x=1"], []), ("j", ["j=1"], [])],
+                [("solo", ["s=1"], [])],
+                [("a", ["a=1"], []), ("b", ["b=1"], []), ("a", ["a=1"], ["b"]), ("c", ["c=1"], [])]]
+    for i in range(n_e2e + len(directed)):
+        blocks = directed[i] if i < len(directed) else gen_random(rng, 5)
+        r = end_to_end(blocks, omit_empty=(i < len(directed) or i % 2 == 0))
         oc.evaluations += 1
         ri = impl_gen(blocks)
         if ri[0] == "error":
